@@ -566,8 +566,20 @@ func genValid(r *Rand) *Project {
 		blocks = append(blocks, g.newEnum())
 	}
 	nt := r.Range(0, 5)
-	for i := 0; i < nt; i++ {
-		blocks = append(blocks, g.newType())
+	if r.Chance(1, 2) && nt > 1 {
+		// forward references: a type refers to types declared LATER in the document. The types are
+		// generated last to first, each seeing only the ones generated so far (no reference cycles),
+		// and put into the document in the opposite order.
+		g.feat("forward-type-refs")
+		var tb []*node
+		for i := 0; i < nt; i++ {
+			tb = append([]*node{g.newType()}, tb...)
+		}
+		blocks = append(blocks, tb...)
+	} else {
+		for i := 0; i < nt; i++ {
+			blocks = append(blocks, g.newType())
+		}
 	}
 	nres := r.Range(1, 5)
 	for i := 0; i < nres; i++ {
@@ -826,6 +838,9 @@ func (g *gen) render(p *Project) {
 		if crlf {
 			w.nl = "\r\n"
 			g.feat("crlf")
+		} else if g.r.Chance(1, 12) {
+			w.nl = "\r"
+			g.feat("cr-only")
 		}
 		for i, n := range g.files[fn] {
 			if i > 0 && g.r.Chance(2, 3) {
